@@ -377,25 +377,31 @@ func mLazyAlias(mi *MessageInfo, p, twin pointer, b []byte, pre bool) {
 	nd.Assert(mEq(got, want), "overwriting the input buffer does not change a lazily decoded message")
 }
 
-//verif:props=C14,C17 bounds=VNode;all-byte-strings<=3(quick)/5(thorough);optionally-after-an-empty-decode maxsteps=10000000
+//verif:props=C14,C17 bounds=VNode;lazy-child-record-with-body<=3(quick)/4(thorough)-free-bytes+optional-scalar-field;optionally-after-an-empty-decode maxsteps=10000000
 func H_M4_lazy_alias() {
-	N := 3
+	M := 3
 	if nd.Thorough() {
-		N = 5
+		M = 4
 	}
-	mLazyAlias(vMI_Node(), pointer{p: unsafe.Pointer(new(VNode))}, pointer{p: unsafe.Pointer(new(VNode))}, nd.Bytes(N), nd.Bool())
+	n := nd.Int(0, M)
+	b := append([]byte{0x4a, byte(n)}, nd.BytesN(n)...)
+	if nd.Bool() {
+		b = append(b, 0x08, nd.Byte())
+	}
+	mLazyAlias(vMI_Node(), pointer{p: unsafe.Pointer(new(VNode))}, pointer{p: unsafe.Pointer(new(VNode))}, b, nd.Bool())
 }
 
 // H_M4_lazy_alias_holder: the submessage field occurs twice on the wire (first occurrence with a
-// body of <=1 byte, e.g. empty), so the opaque child is lazily decoded twice into the same message.
+// body of <=1 byte, e.g. empty; second occurrence holding a lazy grandchild with a body of <=2
+// bytes), so the opaque child is lazily decoded twice into the same message.
 //
-//verif:props=C14 bounds=VHolder{VNode};two-occurrences-of-the-node-field;bodies<=1-and<=3-bytes maxsteps=10000000
+//verif:props=C14,C17 bounds=VHolder{VNode{lazy-child}};two-occurrences-of-the-node-field;first-body<=1-byte;second=lazy-grandchild-record-with-body<=2-bytes maxsteps=10000000
 func H_M4_lazy_alias_holder() {
 	n1 := nd.Int(0, 1)
-	n2 := nd.Int(0, 3)
+	k := nd.Int(0, 2)
 	b := append([]byte{0x0a, byte(n1)}, nd.BytesN(n1)...)
-	b = append(b, 0x0a, byte(n2))
-	b = append(b, nd.BytesN(n2)...)
+	b = append(b, 0x0a, byte(2+k), 0x4a, byte(k))
+	b = append(b, nd.BytesN(k)...)
 	mLazyAlias(vMI_Holder(), pointer{p: unsafe.Pointer(new(VHolder))}, pointer{p: unsafe.Pointer(new(VHolder))}, b, false)
 }
 
@@ -500,9 +506,13 @@ func vNodeUnknown(x *VNode, depth int) int {
 // access, i.e. including raw pass-through of lazily stored children) contains no unknown field
 // anywhere in the tree.
 //
-//verif:props=C09,C17 bounds=VNode;child-record(body<=4-free-bytes)+optional-unknown-field;default-resolver maxsteps=10000000
+//verif:props=C09,C17 bounds=VNode;child-record(body<=2(quick)/4(thorough)-free-bytes)+optional-unknown-field;default-resolver maxsteps=10000000
 func H_M6_lazy_discard() {
-	n := nd.Int(0, 4)
+	M := 2
+	if nd.Thorough() {
+		M = 4
+	}
+	n := nd.Int(0, M)
 	b := append([]byte{0x4a, byte(n)}, nd.BytesN(n)...)
 	if nd.Bool() {
 		b = append(b, 0x50, nd.Byte()) // unknown varint field 10 at top level
